@@ -377,7 +377,10 @@ func (r *RowCache) Update(uuid string, m model.Model, checkIndexes bool) (model.
 			}
 		}
 		for k, v := range removeIndexes[index] {
-			if indexSpec.isSchemaIndex() || substractUUIDSet(r.indexes[index][k], v).empty() {
+			// only remove the index if it is still pointing to this uuid: a
+			// row applied earlier in the same batch may already have taken
+			// over this value
+			if substractUUIDSet(r.indexes[index][k], v).empty() {
 				delete(r.indexes[index], k)
 			}
 		}
